@@ -120,6 +120,7 @@ func writeEvidence(cfg checkCfg, b *Built, ag *agg, corpus map[string][3]int, si
 				"note":           "every spec is also evaluated in reverse order by a second uninstrumented sequential process; the two reference tables must agree (history independence, decided without the simulator)",
 				"specs_compared": ag.refCompared,
 			},
+			"runs_stopped_at_simulator_capacity_limit": ag.harnessLimit,
 			"race_detector_reports":  ag.raceReports,
 			"harness_race_reports":   len(ag.harnessRaces),
 			"determinism_spot_check": map[string]any{"runs_reexecuted": detChecked, "event_log_mismatches": detMismatch},
